@@ -3,6 +3,50 @@ import os, time, re
 import common, diffrun
 
 
+# generated-file name prefix -> hook name prefix (only used to police VERIF_GEN_HOOKS)
+GEN_OWNER = [("Consts", "10"), ("KernObl_avr", "24"), ("Kern_avr", "24"), ("MaskedObl_avr", "24"), ("Masked_avr", "24"),
+             ("Kern_rv", "21"), ("Kern_xtensa", "21"), ("Kern_arm", "22"), ("Kern_i386", "22"), ("Kern_m68k", "22"),
+             ("Kern_", "20"), ("ByteOps", "27-kern-byteops"), ("TagObl", "29"), ("Bounds", "30"), ("CtMasked", "41"), ("Ct", "40-kern-ct"),
+             ("Skeleton", "40-skeleton"), ("AbiX86", "50"), ("Globals", "60"), ("HexAst", "70"),
+             ("Masked", "25|27-kern-masked-c32"), ("MW", "26|28"), ("MWord", "26")]
+
+
+def gen_hooks_guard(pid, extra_targets):
+    """with VERIF_GEN_HOOKS set: the generated files the property targets depend on must all belong to hooks that ran"""
+    only = os.environ.get("VERIF_GEN_HOOKS")
+    if only is None:
+        return []
+    only = [x for x in only.split(",") if x]
+    dep = {}
+    mk = os.path.join(common.COQ, ".Makefile.d")
+    if not os.path.exists(mk):
+        return ["(no .Makefile.d)"]
+    txt = open(mk).read().replace("\\\n", " ")
+    for line in txt.split("\n"):
+        if ":" not in line:
+            continue
+        lhs, rhs = line.split(":", 1)
+        for t in lhs.split():
+            if t.endswith(".vo"):
+                dep.setdefault(t, set()).update(x for x in rhs.split() if x.endswith(".vo"))
+    todo, seen = [common.props_file(pid)] + list(extra_targets), set()
+    while todo:
+        t = todo.pop()
+        if t in seen:
+            continue
+        seen.add(t)
+        todo.extend(dep.get(t, ()))
+    bad = []
+    for t in sorted(seen):
+        if not t.startswith("Gen/"):
+            continue
+        name = t[4:]
+        owner = next((h for pre, h in GEN_OWNER if name.startswith(pre)), None)
+        if owner is None or not any(any(o.startswith(x) or x.startswith(o) for x in only) for o in owner.split("|")):
+            bad.append(name)
+    return bad
+
+
 def prove(res, pid, extra_targets=()):
     """Compile Props/Properties_<pid>.v; record obligations; on failure record a
     violation that names what no longer checks (a concrete failing input, if the
@@ -12,6 +56,9 @@ def prove(res, pid, extra_targets=()):
     with common.Lock("prove"):
         regen = common.regenerate()
         pr = common.coq_props(pid, extra_targets)
+        stale = gen_hooks_guard(pid, extra_targets)
+    if stale:
+        raise common.Infra("VERIF_GEN_HOOKS skipped a translator whose output the property file depends on: " + ", ".join(stale[:8]))
     res.cov["translators"] = regen["summary"]
     for m in regen["missing"]:
         res.violation("translator-missing:" + re.sub(r"[^A-Za-z0-9]+", "_", m)[:60],
